@@ -29,7 +29,9 @@ def sessionStep (s : DState) : List String → Option (DState × String)
     | none => some (s, "bad-op")
   | ["case", n] => some (s.resetCase, s!"case {n}")
   | ["note", _] => some (s, "ok")
-  | ["deepfmt", _] => some (s, "ok")   -- implementation-side only: formatting a deep chain on a small stack (C19 totality)
+  | ["deepfmt", _] => some (s, "ok")
+  | ["chback", _, _, _] => some (s, "ok")   -- implementation-side only: front/back reads of one child iterator, should it offer them (C02)
+  | ["kindstamp"] => some (s, "ok")         -- implementation-side only: does the tree keep values of the kind type? (C08)   -- implementation-side only: formatting a deep chain on a small stack (C19 totality)
   | ["reset"] => some ({ s.resetCase with statics := [], mask := 0xFFFFFFFF }, "ok")
   | _ => none
 
